@@ -596,6 +596,13 @@ PROBE_TABLEAUX = {
         a_im=[[Fraction(7, 89), Fraction(11, 89)], [Fraction(13, 89), Fraction(17, 89), Fraction(19, 89)]],
         b_ex=[Fraction(23, 89), Fraction(29, 89), Fraction(31, 89)],
         b_im=[Fraction(13, 89), Fraction(17, 89), Fraction(19, 89)]),
+    # sparse: the tendencies of stages 1 and 2 are used by the immediately following stage only and carry zero final weight (as in Heun's
+    # third-order method): a driver that decides "is F(Y_i) needed later?" one row too late never evaluates them
+    'sparse probe, stage used by the next stage only': dict(
+        a_ex=[[Fraction(2, 83)], [0, Fraction(3, 83)], [Fraction(5, 83), 0, Fraction(7, 83)]],
+        a_im=[[Fraction(17, 83), Fraction(19, 83)], [0, Fraction(23, 83), Fraction(29, 83)], [Fraction(31, 83), 0, Fraction(37, 83), Fraction(41, 83)]],
+        b_ex=[Fraction(11, 83), 0, 0, Fraction(13, 83)],
+        b_im=[Fraction(43, 83), 0, 0, Fraction(47, 83)]),
 }
 
 
